@@ -41,14 +41,15 @@ func Split(p string) (dir, file string) {
 // The only possible returned error is ErrBadPattern, when pattern
 // is malformed.
 func (c *Client) Glob(pattern string) (matches []string, err error) {
+	// Check pattern is well-formed.
+	if _, err := Match(pattern, ""); err != nil {
+		return nil, err
+	}
 	if !hasMeta(pattern) {
-		file, err := c.Lstat(pattern)
-		if err != nil {
+		if _, err := c.Lstat(pattern); err != nil {
 			return nil, nil
 		}
-		dir, _ := Split(pattern)
-		dir = cleanGlobPath(dir)
-		return []string{Join(dir, file.Name())}, nil
+		return []string{pattern}, nil
 	}
 
 	dir, file := Split(pattern)
